@@ -30,6 +30,9 @@ Clash(x, y) == \/ (x.k = "var" /\ ~x.b /\ NameCharStart(y))
                \/ (x.k = "bs" /\ y.k = "lit")
                \/ (x.k = "lit" /\ y.k = "lit")
 OKSeq(as) == \A j \in 1..(Len(as) - 1) : ~Clash(as[j], as[j + 1])
+\* inside double quotes the backslash atom is the complete escape `\\`: a reference or an escaped `$` may follow it
+ClashDouble(x, y) == Clash(x, y) /\ ~(x.k = "bs" /\ y.k \in {"var", "op", "dollar", "esc"})
+OKSeqDouble(as) == \A j \in 1..(Len(as) - 1) : ~ClashDouble(as[j], as[j + 1])
 ValsNone == {as \in Seqs(AtomsNone, 2) :
                /\ OKSeq(as)
                /\ (as # <<>> => as[1].k \notin {"q1", "q2", "tsp", "hash"})        \* a leading quote makes it quoted
@@ -37,7 +40,7 @@ ValsNone == {as \in Seqs(AtomsNone, 2) :
                /\ (Len(as) = 2 /\ as[2].k = "hash" => as[1].k # "tsp")
                /\ (as # <<>> => as[Len(as)].k # "bs")}
 ValsSingle == {as \in Seqs(AtomsSingle, 2) : OKSeq(as) /\ (as # <<>> => as[Len(as)].k # "bs")}
-ValsDouble == {as \in Seqs(AtomsDouble, 2) : OKSeq(as)}
+ValsDouble == {as \in Seqs(AtomsDouble, 2) : OKSeqDouble(as)}
 
 Assign(ex, key, sep, q, val, cmt) == [k |-> "assign", export |-> ex, key |-> key, sep |-> sep, q |-> q, val |-> val, cmt |-> cmt]
 SmallVals == {<<>>, <<[k |-> "lit", c |-> "a"]>>}
